@@ -362,7 +362,13 @@ func tagFromBuffer(ifd ifds.Ifd, buf []byte) (t Tag, err error) {
 	unitCount := ifd.ByteOrder.Uint32(buf[4:8])                     // UnitCount
 	valueOffset := ifd.ByteOrder.Uint32(buf[8:12]) + ifd.BaseOffset // ValueOffset
 
-	t = NewTag(tagID, tagIsIfd(ifd.Type, tagID, tagType), unitCount, valueOffset, ifd.Type, ifd.Index, ifd.ByteOrder) // NewTag
+	ifdTagType := tagIsIfd(ifd.Type, tagID, tagType)
+	if tagType.Is(tag.TypeUndefined) && unitCount <= 4 {
+		// a maker note of up to 4 bytes is stored in the slot itself: the slot is
+		// not an offset and there is no directory to follow
+		ifdTagType = tagType
+	}
+	t = NewTag(tagID, ifdTagType, unitCount, valueOffset, ifd.Type, ifd.Index, ifd.ByteOrder) // NewTag
 	if !t.IsValid() {
 		err = tag.ErrTagTypeNotValid
 	}
